@@ -867,6 +867,12 @@ def consumer_traces(pm: ProtocolModel, while_iters: int = 2) -> list[Trace]:
 
     def h_collect(it, f, sv, a, k, n):
         i = sum(1 for e in it.events if e.kind == "COLLECT") + 1
+        if any(e.kind == "API" and e.data.get("outcome") == "fails" for e in it.events):
+            # the consumer collects again after a failed call: that alone is the violation (C06 R1.consumer-stops, C05 R6.no-call-after-failure look for a
+            # COLLECT / API after the failure and for a trace that does not return) - the path is cut here instead of being explored through further
+            # iterations, which multiplied the paths of such a tree beyond the selftest's time limit
+            it.emit("COLLECT", n, n=i, items=[])
+            raise _Raise(it.make_exc("builtins.BaseException*", "model cut: the consumer went on after a failed call"), it.site(n))
         # (the refresh-only outcome is offered for the first collection only: "a call without updates, then any other call" is the history the token rule needs)
         c = it.decide(f"collect#{i}", 3, ["batch", "empty", "refresh-only"]) if i == 1 else it.decide(f"collect#{i}", 2, ["batch", "empty"])
         if c == 1:
